@@ -186,7 +186,9 @@ func mustGo(d frag.Doc, f frag.Frag) bool {
 	case frag.RoleFooter:
 		return d.Footer == "every" && d.FooterForm == "frag"
 	case frag.RolePageNo:
-		return d.PageNo == "fixed"
+		// "running page numbers are removed from every page": numbers at one fixed place, and numbers that
+		// alternate between the two outer margins once each of the two places recurs (from four pages on)
+		return d.PageNo == "fixed" || (d.PageNo == "alternate" && len(d.Pages) >= 4)
 	}
 	return false
 }
